@@ -96,3 +96,67 @@ func init() {
 		}
 	}
 }
+
+// FRESHSTATE: the output share kept in a Prio3 preparation state is an allocation of PrepInit itself.
+//
+// flp.Truncate is an interface method; three of its five implementations return a slice of their argument
+// (the measurement share inside the caller's InputShare). Whatever PrepInit stores into PrepState.outShare
+// therefore has to be a vector it allocated (make / arith.NewVec) and copied into, not the result of a call
+// that was handed the input share.
+func checkPrepStateFresh(c *Ctx, p *Program, rule string) {
+	f := p.Func("vdaf/prio3/internal/prio3", "Prio3", "PrepInit")
+	what := "(*prio3.Prio3).PrepInit: the output share stored in the preparation state is a vector allocated by PrepInit"
+	if f == nil {
+		c.undecided(rule, what, "anchor does not resolve", "")
+		return
+	}
+	n := 0
+	var bad []string
+	for _, b := range f.Blocks {
+		for _, in := range b.Instrs {
+			st, ok := in.(*ssa.Store)
+			if !ok {
+				continue
+			}
+			fa, ok := st.Addr.(*ssa.FieldAddr)
+			if !ok || fieldName(fa) != "outShare" {
+				continue
+			}
+			n++
+			base, _ := memRoot(st.Val)
+			fresh := false
+			switch x := base.(type) {
+			case *ssa.MakeSlice:
+				fresh = true
+			case *ssa.Call:
+				name := p.staticCalleeName(&x.Call)
+				fresh = strings.Contains(name, "arith.NewVec")
+			}
+			if !fresh {
+				bad = append(bad, fmt.Sprintf("%s: the stored value is %s", p.pos(st.Pos()), descVal(st.Val)))
+			}
+		}
+	}
+	switch {
+	case n == 0:
+		c.undecided(rule, what, "no assignment of outShare found", p.fnPos(f))
+	case len(bad) > 0:
+		c.bad(rule, what, strings.Join(bad, "; ")+": the result of a call that was handed the input share may be a slice of it (Count, Histogram and MultihotCountVec truncate by slicing), so reusing the InputShare object changes the state", p.fnPos(f))
+	default:
+		c.ok(rule, what, fmt.Sprintf("%d assignment(s), each of a make / arith.NewVec result", n), p.fnPos(f))
+	}
+}
+
+func init() {
+	for _, prop := range []string{"C11", "C19"} {
+		prop := prop
+		prev := registry[prop]
+		registry[prop] = func(c *Ctx) {
+			prev(c)
+			if p := c.Prog("amd64"); p != nil {
+				c.Clauses = append(c.Clauses, prop+".freshstate: the output share stored in a Prio3 preparation state is allocated by PrepInit (it does not alias the caller's input share)")
+				checkPrepStateFresh(c, p, prop+".freshstate")
+			}
+		}
+	}
+}
